@@ -112,23 +112,25 @@ class TokenParser(Parser):
             nextval = 1
 
         values = {}
-        for line in d["values"].splitlines():
-            for v in line.split(","):
-                key, _, val = v.partition("=")
-                key = key.strip()
-                val = val.strip()
-                if not key:
-                    continue
+        # Members are separated by commas. A line break also separates two members where the comma was left out
+        # (a name or value followed by a name on the next line), anywhere else it is just whitespace
+        body = re.sub(r"(?<=[\w)])\s*\n\s*(?=[A-Za-z_])", ",", d["values"])
+        for v in body.split(","):
+            key, _, val = v.partition("=")
+            key = key.strip()
+            val = " ".join(val.split())
+            if not key:
+                continue
 
-                val = nextval if not val else Expression(self.cstruct, val).evaluate(values)
+            val = nextval if not val else Expression(self.cstruct, val).evaluate(values)
 
-                if enumtype == "flag":
-                    high_bit = val.bit_length() - 1
-                    nextval = 2 ** (high_bit + 1)
-                else:
-                    nextval = val + 1
+            if enumtype == "flag":
+                high_bit = val.bit_length() - 1
+                nextval = 2 ** (high_bit + 1)
+            else:
+                nextval = val + 1
 
-                values[key] = val
+            values[key] = val
 
         if not d["type"]:
             d["type"] = "uint32"
